@@ -10,6 +10,7 @@
 import Bita.Model.Proto
 import Bita.Model.Chunker
 import Bita.Model.Index
+import Bita.Gen.Facts
 
 namespace Bita
 open Proto
@@ -122,8 +123,10 @@ def tryInit (H : Bytes → Bytes) (features : List Nat)
       | none => .invalid "protobuf decode"
       | some dict =>
         let cdo := fromLe ((header.drop (Gen.preHeaderSize + dictSize)).take 8)
-        -- `chunk_data_offset.checked_add(archive_offset)`, stored size >= 1
-        if dict.chunkDescriptors.any (fun d => cdo + d.archiveOffset > usizeMax) then
+        -- `chunk_data_offset.checked_add(archive_offset)` and (F12 repair, read from the source:
+        -- `Gen.chunkEndOffsetChecked`) the end of the chunk must fit 64 bits too; stored size >= 1
+        if dict.chunkDescriptors.any (fun d =>
+            cdo + d.archiveOffset + (if Gen.chunkEndOffsetChecked then d.archiveSize else 0) > usizeMax) then
           .invalid "invalid chunk offset" else
         if dict.chunkDescriptors.any (fun d => d.archiveSize = 0) then
           .invalid "invalid chunk size" else
